@@ -45,18 +45,19 @@ import (
 )
 
 type runCase struct {
-	Dev     string `json:"dev"` // PAN-OS | NSX | ASA | IOS | Linux
-	Cmd     string `json:"cmd"` // do-approve approve | do-approve compare | drc | drc -C | drc -u (password typed at a terminal)
-	Pass    string `json:"pass"`
-	Key     string `json:"key"`    // PAN-OS API key / NSX x-xsrf-token
-	Cookie  string `json:"cookie"` // NSX session cookie
-	FaultAt int    `json:"fault_at"`
-	Fault   string `json:"fault"`              // HTTP: eof | timeout | status | statuskey | trunc | invalid | inactive ; SSH: close | silence | wrongpass
-	User    string `json:"user"`               // "" = admin
-	KeyForm int    `json:"key_form,omitempty"` // PAN-OS: 1+index into keyElementForms — how the keygen answer spells the key element (scan only)
-	KeyKind string `json:"key_kind"`           // "" = base64-like key; else the odd character class the key contains (scan only)
-	Variant int    `json:"variant"`            // layout of the keygen response / netspoc config with or without changes
-	Cred    string `json:"cred"`               // "" normal credentials file; "4fields" | "nomatch" | "badpattern": malformed
+	Dev      string `json:"dev"` // PAN-OS | NSX | ASA | IOS | Linux
+	Cmd      string `json:"cmd"` // do-approve approve | do-approve compare | drc | drc -C | drc -u (password typed at a terminal)
+	Pass     string `json:"pass"`
+	Key      string `json:"key"`    // PAN-OS API key / NSX x-xsrf-token
+	Cookie   string `json:"cookie"` // NSX session cookie
+	FaultAt  int    `json:"fault_at"`
+	Fault    string `json:"fault"`               // HTTP: eof | timeout | status | statuskey | trunc | invalid | inactive ; SSH: close | silence | wrongpass
+	User     string `json:"user"`                // "" = admin
+	KeyForm  int    `json:"key_form,omitempty"`  // PAN-OS: 1+index into keyElementForms — how the keygen answer spells the key element (scan only)
+	KeyKind  string `json:"key_kind"`            // "" = base64-like key; else the odd character class the key contains (scan only)
+	Variant  int    `json:"variant"`             // layout of the keygen response / netspoc config with or without changes
+	Cred     string `json:"cred"`                // "" normal credentials file; "4fields" | "nomatch" | "badpattern": malformed
+	LoginHdr string `json:"login_hdr,omitempty"` // NSX: "" = login answer carries x-xsrf-token and session cookie; "notoken" = the cookie only
 }
 
 func (c runCase) user() string {
@@ -67,7 +68,7 @@ func (c runCase) user() string {
 }
 
 func (c runCase) canon() string {
-	return fmt.Sprintf("%s|%s|%s|%s|%s|%d|%s|%d|%s|%s", c.Dev, c.Cmd, c.Pass, c.Key, c.Cookie, c.FaultAt, c.Fault, c.Variant, c.Cred, c.User)
+	return fmt.Sprintf("%s|%s|%s|%s|%s|%d|%s|%d|%s|%s|%s", c.Dev, c.Cmd, c.Pass, c.Key, c.Cookie, c.FaultAt, c.Fault, c.Variant, c.Cred, c.User, c.LoginHdr)
 }
 
 // ---------------------------------------------------------------- SSH simulator (child process)
@@ -844,6 +845,9 @@ func execRun(tmp string, c *runCase, no int, scale int) *runOutcome {
 			if r.URL.Path == "/api/session/create" {
 				rep.A = ""
 				hdr = map[string]string{"x-xsrf-token": c.Key, "Set-Cookie": "JSESSIONID=" + c.Cookie + "; Path=/; Secure; HttpOnly"}
+				if c.LoginHdr == "notoken" {
+					delete(hdr, "x-xsrf-token") // a manager that hands out the session cookie only
+				}
 			}
 			if i == c.FaultAt {
 				switch c.Fault {
@@ -1705,7 +1709,11 @@ func (e *c17Env) judge(c *runCase, o *runOutcome) (leaks, tie *Result, reached b
 		}
 		if c.Dev == "NSX" && len(o.Reqs) > 1 {
 			// the run is meaningful only if the session secrets were really in use
-			if o.Reqs[1].Token != c.Key || o.Reqs[1].Cookie != c.Cookie {
+			wantTok := c.Key
+			if c.LoginHdr == "notoken" {
+				wantTok = ""
+			}
+			if o.Reqs[1].Token != wantTok || o.Reqs[1].Cookie != c.Cookie {
 				tie.Disagree("c17 run NSX: token/cookie not presented by the client", c, fmt.Sprint(o.Reqs[1]), "token and cookie of the login response")
 			}
 		}
@@ -1930,6 +1938,19 @@ func (e *c17Env) wholeRuns() {
 					}
 					run(&runCase{Dev: dev, Cmd: runCmds[(ci+di+si+pos)%len(runCmds)], FaultAt: pos, Fault: "st:" + code + suffix, Variant: ci})
 				}
+			}
+		}
+	}
+	// a login answer without x-xsrf-token (session cookie only), alone and with later requests refused: whatever the
+	// client remembered of the login answer must not surface in a later error text (seeded change C17-W1)
+	run(&runCase{Dev: "NSX", Cmd: runCmds[0], FaultAt: -1, LoginHdr: "notoken"})
+	for ci, code := range []string{"403", "401", "500"} {
+		for si, suffix := range []string{"", ":stay"} {
+			for pos := 1; pos < 4; pos++ {
+				if !thorough && (ci+si+pos)%2 == 1 && code != "403" {
+					continue
+				}
+				run(&runCase{Dev: "NSX", Cmd: runCmds[(ci+si+pos)%len(runCmds)], FaultAt: pos, Fault: "st:" + code + suffix, Variant: ci, LoginHdr: "notoken"})
 			}
 		}
 	}
